@@ -176,7 +176,7 @@ class SolveContract(FunctionContract):
     prevalidates_labels = True       # solve() rejects a start/end label without a single position before anything is solved
 
     def scenarios(self):
-        return ['default-range', 'start-end', 'start-only', 'end-only', 'empty-span']
+        return ['default-range', 'start-end', 'start-only', 'end-only', 'empty-span', 'short-span']
 
     def setup(self, interp, scenario):
         ctx = interp.ctx
@@ -190,6 +190,10 @@ class SolveContract(FunctionContract):
             # n == 0 contradicts make_model's n >= 1: rebuild the span as empty
             env.span.length = z3.IntVal(0)
             e['empty'] = True
+        elif scenario == 'short-span':
+            # a non-empty span too short for the model's lags and leads: no period reads inside the span, so the default range is
+            # empty - the call may refuse (IndexError from the span look-up) but must not solve any period
+            ctx.assume(z3.And(env.n >= 1, env.n < env.lags + env.leads + 1))
         else:
             # requires (C04 quantifier): the span accommodates the model's lags and leads
             ctx.assume(env.n >= env.lags + env.leads + 1)
@@ -297,6 +301,9 @@ class SolveContract(FunctionContract):
             if cls is SolutionError:
                 ctx.cover('empty-span')
                 ctx.prove(z3.And(env.span.length == 0, g['ncalls'] == 0), 'SolutionError_only_for_an_empty_span', 'raises')
+                return
+            if scenario == 'short-span' and cls is IndexError:
+                ctx.prove(g['ncalls'] == 0, 'span_too_short_for_lags_and_leads:refused_before_anything_is_solved', 'raises')
                 return
             ctx.prove(False, f'only_documented_exceptions:{getattr(cls, "__name__", cls)}', 'raises')
             return
